@@ -197,6 +197,7 @@ func (l *Loaded) verifyFunc(r *Runner, fn *ssa.Function, sp *FuncSpec) (res *FnR
 	st := &State{heap: map[string]Term{}, cells: map[cellKey]Val{}, W: Sym("W0", SInt), held: map[string]string{},
 		ghost: map[string]Term{}, defs: map[string]Term{}, nonnil: map[string]bool{}, boxes: map[string]Val{}, heldPlace: map[string]*Place{}}
 	st.assume(Ge(st.W, IntLit(1000000)))
+	st.W0 = st.W
 	f := r.newFrame(fn, 0)
 	f.spec = sp
 	f.blk = fn.Blocks[0]
@@ -229,6 +230,15 @@ func (l *Loaded) verifyFunc(r *Runner, fn *ssa.Function, sp *FuncSpec) (res *FnR
 	for i, n := range sp.Formals {
 		if n != "_" {
 			env.vars[n] = f.params[i]
+		}
+	}
+	// captured variables of a function literal are visible in its contract by name (entry values)
+	f.fvEntry = map[string]Val{}
+	for _, fv := range fn.FreeVars {
+		cv := st.load(r.placeOf(f.regs[fv]))
+		f.fvEntry[fv.Name()] = cv
+		if _, clash := env.vars[fv.Name()]; !clash {
+			env.vars[fv.Name()] = cv
 		}
 	}
 	for _, h := range sp.Holds {
@@ -476,6 +486,24 @@ func dirsForProp(prop string) []string {
 			}
 		}
 	next:
+	}
+	// `//@ load <dir>` directives of the selected contract files: extra packages to load with source
+	seen := map[string]bool{}
+	for _, d := range out {
+		seen[d] = true
+	}
+	for _, d := range append([]string{}, out...) {
+		data, _ := os.ReadFile(filepath.Join(d, contractFile))
+		for _, ln := range strings.Split(string(data), "\n") {
+			t := strings.TrimSpace(ln)
+			if strings.HasPrefix(t, "//@ load ") {
+				x := filepath.Join(repoRoot, strings.TrimSpace(strings.TrimPrefix(t, "//@ load ")))
+				if !seen[x] {
+					seen[x] = true
+					out = append(out, x)
+				}
+			}
+		}
 	}
 	return out
 }
